@@ -233,6 +233,10 @@ pub fn draw_plan(t: &Tape, p: &T1Profile) -> T1Plan {
         // (Crossing a configured quota is a configured GOAWAY, not a penalty; C18 covers it.)
         ccfg.data_frame_budget = Some(usize::MAX / 4);
         scfg.data_frame_budget = Some(usize::MAX / 4);
+        // likewise the lifetime quota of library-initiated resets (each late frame on a
+        // forgotten stream is answered with one) is configured off
+        ccfg.max_local_error_reset_streams = Some(None);
+        scfg.max_local_error_reset_streams = Some(None);
         let mut left = 80usize;
         for c in cprogs.iter_mut() {
             for ch in c.body.chunks.iter_mut() {
@@ -334,6 +338,8 @@ pub struct Shared {
     pub conn_done: [bool; 2],
     pub accepted: u32,
     pub idle_gate: Option<crate::exec::Gate>,
+    /// (T2 exhaustion probe) probe readers hold what they read until this opens
+    pub probe_gate: Option<crate::exec::Gate>,
 }
 
 pub type SharedRef = Arc<Mutex<Shared>>;
@@ -516,14 +522,20 @@ pub async fn server_main(ctx: Ctx, io: crate::net::SimIo, plan: Arc<T1Plan>, ctl
         }
         loop {
             if delay_left > 0 {
-                // accept slowly: keep driving the connection without taking streams
-                delay_left -= 1;
+                // accept slowly: keep driving the connection without taking streams. Large
+                // values mean "never": the task is then only polled when h2 wakes it.
+                let never = accept_delay >= 10_000;
+                if !never {
+                    delay_left -= 1;
+                }
                 let r = conn.poll_closed(cx);
                 sh2.lock().unwrap().codec[1] = conn.verif_codec_stats();
                 match r {
                     Poll::Ready(r) => return Poll::Ready(Some(r)),
                     Poll::Pending => {
-                        cx.waker().wake_by_ref();
+                        if !never {
+                            cx.waker().wake_by_ref();
+                        }
                         return Poll::Pending;
                     }
                 }
@@ -546,7 +558,24 @@ pub async fn server_main(ctx: Ctx, io: crate::net::SimIo, plan: Arc<T1Plan>, ctl
                         sh.accepted += 1;
                         sh.accepted as usize - 1
                     };
-                    let prog = plan2.sprogs[i % plan2.sprogs.len()].clone();
+                    let mut prog = plan2.sprogs[i % plan2.sprogs.len()].clone();
+                    if req.uri().path().starts_with("/hold") {
+                        // (T2) read but never release: the stream window is never replenished
+                        prog.read = ReadPlan { release: Release::Never, stop_after: None, probe_end_stream: false, skip_trailers: false };
+                        prog.respond_delay = 0;
+                        prog.refuse = None;
+                        prog.drop_without_response = false;
+                    }
+                    if req.uri().path().starts_with("/probe") {
+                        // window exhaustion probe (T2): hold everything until the gate opens,
+                        // then release it all at once
+                        let gate = sh2.lock().unwrap().probe_gate.clone().unwrap_or_default();
+                        let sid = respond.stream_id().as_u32();
+                        let n = format!("s:s{}:probe", sid);
+                        c2.spawner.spawn(n.clone(), probe_stream(c2.clone(), n, req, respond, gate));
+                        delay_left = accept_delay;
+                        continue;
+                    }
                     let sid = respond.stream_id().as_u32();
                     let n = format!("s:s{}:respond", sid);
                     c2.spawner.spawn(n.clone(), server_stream(c2.clone(), n, req, respond, prog));
@@ -567,6 +596,63 @@ pub async fn server_main(ctx: Ctx, io: crate::net::SimIo, plan: Arc<T1Plan>, ctl
     }
     shared.lock().unwrap().conn_done[1] = true;
     ctx.status.set("s:conn", "done");
+}
+
+async fn probe_stream(ctx: Ctx, name: String, req: http::Request<h2::RecvStream>, mut respond: h2::server::SendResponse<Bytes>, gate: crate::exec::Gate) {
+    let sid = respond.stream_id().as_u32();
+    let head = crate::hist::fields_of_request(&req);
+    ctx.hist.dir(sid, 0, |d| {
+        d.r_head = Some(head);
+        d.r_head_count += 1;
+    });
+    let mut body = req.into_body();
+    let _ = respond.send_response(http::Response::builder().status(200).body(()).unwrap(), true);
+    drop(respond);
+    let mut held = 0usize;
+    let mut released = false;
+    let mut off = 0u64;
+    loop {
+        ctx.status.set(&name, "probe poll_data");
+        let item = poll_fn(|cx| {
+            if !released && gate.is_open() {
+                released = true;
+                if held > 0 {
+                    let _ = body.flow_control().release_capacity(held);
+                    held = 0;
+                }
+            }
+            gate.register(cx.waker());
+            body.poll_data(cx)
+        })
+        .await;
+        ctx.tick();
+        match item {
+            Some(Ok(b)) => {
+                let len = b.len();
+                let mut bad = None;
+                for (i, x) in b.iter().enumerate() {
+                    if *x != crate::hist::pat(0, sid, off + i as u64) {
+                        bad = Some(off + i as u64);
+                        break;
+                    }
+                }
+                off += len as u64;
+                ctx.hist.dir(sid, 0, |d| {
+                    d.r_body += len as u64;
+                    if d.r_body_bad.is_none() {
+                        d.r_body_bad = bad;
+                    }
+                });
+                if released {
+                    let _ = body.flow_control().release_capacity(len);
+                } else {
+                    held += len;
+                }
+            }
+            _ => break,
+        }
+    }
+    ctx.status.set(&name, "done");
 }
 
 async fn ping_task(ctx: Ctx, name: String, side: usize, shared: SharedRef, n: u32) {
@@ -748,6 +834,7 @@ pub fn run_t1(profile: &T1Profile, tape: Tape, opts: &T1Opts) -> RunOut {
         };
         hist.with(|h| h.step = exec.step);
         mon.step = exec.step;
+        mon.now_ns = exec.now_ns;
         if let Entity::Task(id) = ent {
             evbuf.clear();
             h2::verif::take_events(&mut evbuf);
@@ -807,7 +894,17 @@ pub fn run_t1(profile: &T1Profile, tape: Tape, opts: &T1Opts) -> RunOut {
         StepOutcome::StepBudget => violations.push(Violation::new("C06", "step-budget", "", format!("run did not finish within {} steps", exec.cfg.max_steps), step)),
         _ => {}
     }
-    let unfinished = exec.unfinished();
+    let mut unfinished = exec.unfinished();
+    if !profile.cooperative {
+        // Non-cooperative programs may wait on each other for ever while their connection is
+        // alive; what must not happen is a handle operation still pending after its
+        // connection has ended (C07).
+        let done = shared.lock().unwrap().conn_done;
+        unfinished.retain(|(n, _)| match side_of(n) {
+            Some(sd) => done[sd] && !n.ends_with(":conn"),
+            None => false,
+        });
+    }
     // Both writers blocked by transport back-pressure: the transport is not "accepting
     // bytes", which is outside the precondition of the progress properties.
     let mutual_block = net.writer_blocked(0) && net.writer_blocked(1);
@@ -909,7 +1006,9 @@ pub fn run_t1(profile: &T1Profile, tape: Tape, opts: &T1Opts) -> RunOut {
                         } else {
                             let f = &mon.frames[1 - side][idx - 1];
                             let cfg = if side == 0 { &plan.ccfg } else { &plan.scfg };
-                            let no_memory = cfg.max_concurrent_reset_streams == Some(0) || cfg.reset_stream_duration == Some(std::time::Duration::ZERO);
+                            let quota = cfg.max_concurrent_reset_streams.unwrap_or(50);
+                            let dur = cfg.reset_stream_duration.unwrap_or(std::time::Duration::from_secs(1)).as_nanos() as u64;
+                            let no_memory = m.may_have_forgotten(f.sid, m.goaway_time.unwrap_or(mon.now_ns), quota, dur);
                             let app_reset = m.app_resets.contains_key(&f.sid);
                             let st = match m.streams.get(&f.sid) {
                                 None => "unknown-stream",
@@ -945,6 +1044,36 @@ pub fn run_t1(profile: &T1Profile, tape: Tape, opts: &T1Opts) -> RunOut {
     }
     if clean && profile.cooperative {
         check_legal_resets(&hist, &mon, &mut violations, step);
+    }
+    // C07: a stream whose complete message had been received before the connection ended
+    // still delivers it (the receiver had processed END_STREAM; nobody reset the stream)
+    if fatal_cfg || profile.shutdowns {
+        hist.with(|h| {
+            for (sid, s) in &h.streams {
+                for (di, d) in s.dirs.iter().enumerate() {
+                    let recv_side = if di == 0 { 1 } else { 0 };
+                    let m = match mon.ep[recv_side].streams.get(sid) {
+                        Some(m) => m,
+                        None => continue,
+                    };
+                    let app_reset = mon.ep[recv_side].app_resets.contains_key(sid) || mon.ep[1 - recv_side].app_resets.contains_key(sid);
+                    if m.hdr_in && m.end_in && !m.rst_in && m.rst_out == 0 && !app_reset && !d.r_stopped && d.r_head.is_some() && !d.r_end {
+                        if let Some(err) = &d.r_err {
+                            violations.push(Violation::new(
+                                "C07",
+                                "complete-message-lost-at-connection-end",
+                                format!("dir{}", di),
+                                format!(
+                                    "stream {} dir {}: the receiver had processed the whole message (END_STREAM, {} body bytes) before the connection ended, but its application got {} bytes and then an error instead of a clean end: {}",
+                                    sid, di, d.s_body, d.r_body, err
+                                ),
+                                step,
+                            ));
+                        }
+                    }
+                }
+            }
+        });
     }
     let streams_done = check_fidelity(&hist, &mon, clean && profile.cooperative && conn_ok, &mut violations, step);
 
@@ -1149,7 +1278,12 @@ pub fn check_fidelity(hist: &Hist, mon: &Monitor, must_complete: bool, out: &mut
                 let tag = format!("dir{}", di);
                 if let Some(rh) = &d.r_head {
                     match &d.s_head {
-                        None => out.push(Violation::new("C01", "head-without-submission", tag.clone(), format!("stream {} dir {}: delivered head {} but nothing was submitted", sid, di, show_fields(rh)), step)),
+                        None => {
+                            out.push(Violation::new("C01", "head-without-submission", tag.clone(), format!("stream {} dir {}: delivered head {} but nothing was submitted", sid, di, show_fields(rh)), step));
+                            // nothing recorded to compare the rest with (T2: hand-made frames)
+                            both = false;
+                            continue;
+                        }
                         Some(sh) => {
                             if canon(sh) != canon(rh) {
                                 out.push(Violation::new("C01", "head-mismatch", tag.clone(), format!("stream {} dir {}: submitted {} delivered {}", sid, di, show_fields(sh), show_fields(rh)), step));
